@@ -541,6 +541,13 @@ fn main() {
             std::fs::write(arg(&args, "--out").expect("--out"), serde_json::to_string_pretty(&rep).unwrap()).unwrap();
         }
         #[cfg(feature = "cb-std")]
+        "copyclone" => {
+            // Copy element type with an observable Clone: one line per (capacity, layout, operation); compared across builds (C18)
+            for l in cbverif::copy_engine::run() {
+                println!("{l}");
+            }
+        }
+        #[cfg(feature = "cb-std")]
         "replay-tiny" => {
             let text = std::fs::read_to_string(&args[2]).expect("read replay file");
             let v: serde_json::Value = serde_json::from_str(&text).expect("replay file is not JSON");
